@@ -12,7 +12,7 @@ use crate::scen_life::Lifecycle;
 use crate::scen_misc::{Codec, HeaderFaults, HeaderRandom, Rejections};
 use crate::scen_spill::SpillUtil;
 use crate::scen_stream::{Fragmentation, SyncAsync};
-use crate::scen_write::{Canonical, StartPos, StartPosDirs, TornWrite};
+use crate::scen_write::{Canonical, CanonicalForeign, StartPos, StartPosDirs, TornWrite};
 
 pub const ALL: &[&str] = &["C01", "C02", "C03", "C04", "C06", "C08", "C09", "C10", "C11", "C12", "C13", "C14", "C15", "C16", "C17", "C18", "C19", "C20"];
 
@@ -33,7 +33,7 @@ pub fn plan(prop: &str, tier: Tier) -> Option<Plan> {
         "codec libraries (flate2, brotli, zstd) are a trusted base shared by crate and oracle".into(),
     ];
     let (p, level, batches): (&'static str, &'static str, Vec<Batch>) = match prop {
-        "C01" => ("C01", "exploration", vec![b(Lifecycle { prop: "C01", huge_pct: 1, window_pct: 1 }, 12_000, 300_000, t)]),
+        "C01" => ("C01", "exploration", vec![b(Lifecycle { prop: "C01", huge_pct: 1, window_pct: 1 }, 12_000, 300_000, t), b(History { prop: "C01" }, 8000, 300_000, t)]),
         "C02" => {
             assumptions.push("validator written from the v3 specification text; shares no code with the crate".into());
             ("C02", "exploration", vec![b(Lifecycle { prop: "C02", huge_pct: 2, window_pct: 5 }, 10_000, 300_000, t), b(History { prop: "C02" }, 10_000, 600_000, t)])
@@ -61,7 +61,7 @@ pub fn plan(prop: &str, tier: Tier) -> Option<Plan> {
         }
         "C16" => {
             assumptions.push("cross-process clause: a sample of runs is recomputed by a second pmtsim process with its own hash keys and natural iteration order".into());
-            ("C16", "exploration", vec![b(Canonical, 10_000, 500_000, t)])
+            ("C16", "exploration", vec![b(Canonical, 10_000, 500_000, t), b(CanonicalForeign, 3000, 200_000, t)])
         }
         "C17" => {
             assumptions.push("each write call is atomic (transfers are never split in this scenario), as the property states; the stream is fresh".into());
